@@ -459,8 +459,11 @@ def _oracle_geometry(ctx, which, groove, gap, rp, replay):
             e, f = ends[k]
             a, b = lines[i][e], lines[i][1 if e == 0 else -2]          # face segment of contour i
             c, dd = lines[j][f], lines[j][1 if f == 0 else -2]          # face segment of contour j
-            if abs(_line_dist(c, a, b) - gap) > tol or abs(_line_dist(dd, a, b) - gap) > tol or \
-                    abs(_line_dist(a, c, dd) - gap) > tol:
+            # a spline groove has faces of zero length (see _spline_points): its end segments are flank segments and
+            # have no prescribed direction - only the end-point distance above applies (as in the two-roll branch)
+            if type(groove).__name__ != "SplineGroove" and (
+                    abs(_line_dist(c, a, b) - gap) > tol or abs(_line_dist(dd, a, b) - gap) > tol or
+                    abs(_line_dist(a, c, dd) - gap) > tol):
                 ctx.violation("three-roll-face-separation", f"faces of contours {i},{j} are not parallel at distance gap={gap}",
                               replay)
                 break
